@@ -20,7 +20,7 @@
 @*/
 use super::*;
 
-pub struct Disk { pub lines: [i8; 8], pub ts: [bool; 8], pub len: usize, pub truncations: u8 }
+pub struct Disk { pub lines: [i8; 8], pub ts: [bool; 8], pub len: usize, pub truncations: u8, pub writes: u8, pub fail_at: u8 }
 pub struct Env { pub disk: *mut Disk }
 pub struct Opts { disk: *mut Disk, append: bool, truncate: bool }
 pub struct FileRec { disk: *mut Disk }
@@ -42,6 +42,9 @@ impl FileRec {
     // `writeln!(file, ...)` expands to `file.write_fmt(format_args!(...))`
     pub fn write_fmt(&mut self, _a: std::fmt::Arguments<'_>) -> Result<(), error::Error> {
         let d = unsafe { &mut *self.disk };
+        d.writes += 1;
+        // fault injection: the k-th write of this run fails (ENOSPC / EIO) and nothing reaches the file
+        if d.fail_at != 0 && d.writes == d.fail_at { unsafe { CUR_IS_TS = false; } return Err(error::ErrorKind::NotArray.into()); }
         unsafe {
             if d.len < 8 { d.lines[d.len] = CUR_ITEM; d.ts[d.len] = CUR_IS_TS; }
             d.len += 1;
@@ -95,7 +98,7 @@ fn scenario(modulo_known: bool) {
         KItem { dirty: d0, timestamp: if has_ts[0] { Some(TsProbe) } else { None }, command_line: 0 },
         KItem { dirty: d1, timestamp: if has_ts[1] { Some(TsProbe) } else { None }, command_line: 0 } ] } };
     // the file already holds the clean (imported) items
-    let mut disk = Disk { lines: [-1; 8], ts: [false; 8], len: 0, truncations: 0 };
+    let mut disk = Disk { lines: [-1; 8], ts: [false; 8], len: 0, truncations: 0, writes: 0, fail_at: 0 };
     if !d0 { disk.lines[disk.len] = 0; disk.len += 1; }
     if !d1 { disk.lines[disk.len] = 1; disk.len += 1; }
     let full: [bool; 3] = kani::any();        // which call site each of the three saves comes from
@@ -111,7 +114,8 @@ fn scenario(modulo_known: bool) {
         let len_before = disk.len;
         let saved_before = k > 0;
         save(&mut h, &mut disk, full[k], ts);
-        kani::cover!(k == 1 && full[0] && !full[1] && d1, "full_write_then_exit_save");
+        kani::cover!(modulo_known || (k == 1 && full[0] && !full[1] && d1), "full_write_then_exit_save");
+        kani::cover!(k == 1 && full[0] && !full[1], "full_write_then_append_save");
         kani::cover!(k == 2 && !full[0] && !full[1] && !full[2] && d0, "three_exit_saves");
         // after any save every item is in the file exactly once, in recording order
         assert!(count(&disk, 0) == 1 && count(&disk, 1) == 1, "C20.flush.each_item_exactly_once");
@@ -150,7 +154,7 @@ fn vk_c20_flush_append_only() {
     let d0: bool = kani::any();
     kani::assume(!d0 || d1);
     let mut h = Hist { items: [0, 1], id_map: MapRec { items: [ KItem { dirty: d0, timestamp: None, command_line: 0 }, KItem { dirty: d1, timestamp: None, command_line: 0 } ] } };
-    let mut disk = Disk { lines: [-1; 8], ts: [false; 8], len: 0, truncations: 0 };
+    let mut disk = Disk { lines: [-1; 8], ts: [false; 8], len: 0, truncations: 0, writes: 0, fail_at: 0 };
     if !d0 { disk.lines[disk.len] = 0; disk.len += 1; }
     if !d1 { disk.lines[disk.len] = 1; disk.len += 1; }
     save(&mut h, &mut disk, false, false);
@@ -161,5 +165,34 @@ fn vk_c20_flush_append_only() {
     save(&mut h, &mut disk, false, false);
     save(&mut h, &mut disk, false, false);
     assert!(disk.len == l1 && disk.truncations == 0, "C20.append.idempotent");
+    std::mem::forget(h);
+}
+
+//@proof {'props': ['C20'], 'tier': 'quick', 'timeout': 900, 'uses': ['flush'], 'bounds': '2 unsaved items (timestamps symbolic); an append save in which the k-th write fails (k symbolic, or none); then a second append save without fault', 'desc': 'write fault during a save: an item is marked saved only if its command line reached the file, so the next save persists what the failed one did not; after the second save every command is in the file exactly once and in order'}
+#[kani::proof]
+#[kani::unwind(10)]
+fn vk_c20_flush_write_fault() {
+    let has_ts: [bool; 2] = kani::any();
+    let ts: bool = kani::any();
+    let mut h = Hist { items: [0, 1], id_map: MapRec { items: [
+        KItem { dirty: true, timestamp: if has_ts[0] { Some(TsProbe) } else { None }, command_line: 0 },
+        KItem { dirty: true, timestamp: if has_ts[1] { Some(TsProbe) } else { None }, command_line: 0 } ] } };
+    let mut disk = Disk { lines: [-1; 8], ts: [false; 8], len: 0, truncations: 0, writes: 0, fail_at: kani::any() };
+    kani::assume(disk.fail_at <= 5);
+    save(&mut h, &mut disk, false, ts);
+    kani::cover!(disk.fail_at == 1, "first_write_fails");
+    kani::cover!(disk.fail_at == 2 && ts && has_ts[0], "command_line_write_fails_after_its_timestamp");
+    kani::cover!(disk.fail_at == 0, "no_fault");
+    // clean implies persisted
+    if !h.id_map.items[0].dirty { assert!(count(&disk, 0) == 1, "C20.fault.item_marked_saved_only_after_its_line_was_written"); }
+    if !h.id_map.items[1].dirty { assert!(count(&disk, 1) == 1, "C20.fault.item_marked_saved_only_after_its_line_was_written"); }
+    // nothing is written twice by the failed save
+    assert!(count(&disk, 0) <= 1 && count(&disk, 1) <= 1, "C20.fault.no_duplicates");
+    // the next (fault-free) save completes the job
+    disk.fail_at = 0;
+    save(&mut h, &mut disk, false, ts);
+    assert!(count(&disk, 0) == 1 && count(&disk, 1) == 1, "C20.fault.next_save_persists_every_command_exactly_once");
+    assert!(first_pos(&disk, 0) < first_pos(&disk, 1), "C20.fault.recording_order");
+    assert!(!h.id_map.items[0].dirty && !h.id_map.items[1].dirty, "C20.fault.all_saved");
     std::mem::forget(h);
 }
